@@ -245,6 +245,13 @@ func (evidWorld) Exec(prop string, t *Trace) *Result {
 	faultSeen := false
 	verifyAfterFault := false
 	gateInvalid, gateValid := 0, 0
+	// tokens handed out by successful signing calls: the very slices the
+	// library returned, plus a private snapshot taken at that moment
+	type heldTok struct {
+		ret, snap []byte
+		at        int
+	}
+	var held []heldTok
 
 	for i, op := range t.Ops {
 		res.OpsRun++
@@ -366,6 +373,7 @@ func (evidWorld) Exec(prop string, t *Trace) *Result {
 				model.relaxed = false
 				res.Probes["sign_failed"]++
 			} else {
+				held = append(held, heldTok{ret: tok, snap: append([]byte{}, tok...), at: i})
 				ok := model.adopt(tok)
 				if !ok {
 					if c19 {
@@ -577,6 +585,17 @@ func (evidWorld) Exec(prop string, t *Trace) *Result {
 			gateValid += gv
 		}
 		disarmCodec()
+		if c19 {
+			for _, h := range held {
+				if !bytes.Equal(h.ret, h.snap) {
+					res.violate("C19", "earlier-token-changed-by-later-operation", "", i, "the token returned by the signing call at step %d was modified by a later operation on the same Evidence (tokens must be independent)\n was: %x\n now: %x", h.at, h.snap, h.ret)
+					res.Probes["held_token_changed"]++
+				}
+			}
+			if len(held) > 1 {
+				res.Probes["held_tokens_rechecked"]++
+			}
+		}
 	}
 	res.Shape = hash64(opKinds(t.Ops), poolShape(&cfg))
 	if c19 {
